@@ -604,14 +604,12 @@ Proof. vm_compute. reflexivity. Qed.
 
 (* ------------------------------------------------------------------ *)
 (** * redirect codes *)
-Lemma code_range_on_domain opt : code_overflows opt = false ->
-  redirect_code opt = 0%Z \/ (300 <= redirect_code opt <= 399)%Z.
+Lemma code_range opt : redirect_code opt = 0%Z \/ (300 <= redirect_code opt <= 399)%Z.
 Proof.
-  unfold code_overflows, redirect_code. destruct (is_nil opt); [now left|].
-  destruct (atoi opt) as [v ok]. destruct ok; cbn [negb andb].
-  - intros _. destruct ((v <? 300)%Z || (v >? 399)%Z) eqn:E; [now left|right].
-    apply orb_false_iff in E as [E1 E2]. apply Z.ltb_ge in E1. rewrite Z.gtb_ltb in E2. apply Z.ltb_ge in E2. lia.
-  - intros H. apply negb_false_iff, Z.eqb_eq in H. now left.
+  unfold redirect_code. destruct (is_nil opt); [now left|].
+  destruct (atoi opt) as [v ok]. destruct ok; [|now left].
+  destruct ((v <? 300)%Z || (v >? 399)%Z) eqn:E; [now left|right].
+  apply orb_false_iff in E as [E1 E2]. apply Z.ltb_ge in E1. rewrite Z.gtb_ltb in E2. apply Z.ltb_ge in E2. lia.
 Qed.
 
 (* a three-digit 3xx option is kept as it is *)
@@ -635,11 +633,13 @@ Proof.
   apply orb_true_iff in E2 as [E2|E2]; [apply Z.ltb_lt in E2; lia|]. rewrite Z.gtb_ltb in E2. apply Z.ltb_lt in E2. lia.
 Qed.
 
+(* before fix fa24a7f (route/route.go: RedirectCode reset to 0 on an Atoi error) *)
 Lemma code_range_refuted :
-  exists opt, redirect_code opt = 9223372036854775807%Z /\ code_overflows opt = true.
-Proof. exists (bs "99999999999999999999"). vm_compute. split; reflexivity. Qed.
+  exists opt, redirect_code_unrepaired opt = 9223372036854775807%Z /\ code_overflows opt = true
+              /\ redirect_code opt = 0%Z.
+Proof. exists (bs "99999999999999999999"). vm_compute. repeat split; reflexivity. Qed.
 Example code_range_nonvacuous :
-  code_overflows (bs "308") = false /\ redirect_code (bs "308") = 308%Z
+  redirect_code (bs "308") = 308%Z
   /\ redirect_code (bs "400") = 0%Z /\ redirect_code (bs "299") = 0%Z /\ redirect_code (bs "3x1") = 0%Z.
 Proof. vm_compute. repeat split; reflexivity. Qed.
 
@@ -660,10 +660,9 @@ Proof.
     + destruct (t_code t0 =? 0)%Z eqn:E0.
       * inversion H; subst. unfold is_redirect in Hr. rewrite E0 in Hr. discriminate.
       * destruct (is_self (build_redirect_url t0 q) q).
-        -- destruct (lookup_loop q cands (Some t0)) as [res ws'] eqn:EL. inversion H; subst res ws.
-           destruct (IH _ _ _ EL Hr) as [Hl|[-> Hc]].
-           ++ left. unfold last_write in *. cbn [rev]. destruct (rev ws') as [|w r']; [discriminate|]. exact Hl.
-           ++ left. inversion Hc; subst. reflexivity.
+        -- destruct (lookup_loop q cands None) as [res ws'] eqn:EL. inversion H; subst res ws.
+           destruct (IH _ _ _ EL Hr) as [Hl|[-> Hc]]; [|discriminate Hc].
+           left. unfold last_write in *. cbn [rev]. destruct (rev ws') as [|w r']; [discriminate|]. exact Hl.
         -- inversion H; subst. left. reflexivity.
     + destruct (IH _ _ _ H Hr) as [Hl|[-> Hc]]; [now left|discriminate].
 Qed.
@@ -721,35 +720,23 @@ Fixpoint ref_lookup_hdr (q : request) (cands : list (option target)) : option ta
       if (t_code t =? 0)%Z then Some t
       else if is_self (build_redirect_url t q) q then ref_lookup_hdr q r else Some t
   end.
-Fixpoint tail_cur (q : request) (cands : list (option target)) (cur : option target) : option target :=
-  match cands with
-  | [] => cur
-  | c :: r => tail_cur q r c
-  end.
-Lemma lookup_loop_ref q : forall cands cur,
-  fst (lookup_loop q cands cur) =
-  match ref_lookup_hdr q cands with Some t => Some t | None => tail_cur q cands cur end.
+Lemma lookup_loop_ref q : forall cands, fst (lookup_loop q cands None) = ref_lookup_hdr q cands.
 Proof.
-  induction cands as [|c cands IH]; intros cur; [reflexivity|].
-  destruct c as [t|]; cbn [lookup_loop ref_lookup_hdr tail_cur].
+  induction cands as [|c cands IH]; [reflexivity|].
+  destruct c as [t|]; cbn [lookup_loop ref_lookup_hdr].
   - destruct (t_code t =? 0)%Z; [reflexivity|].
     destruct (is_self (build_redirect_url t q) q); [|reflexivity].
-    specialize (IH (Some t)). destruct (lookup_loop q cands (Some t)) as [res ws]. exact IH.
-  - apply IH.
+    destruct (lookup_loop q cands None) as [res ws]. exact IH.
+  - exact IH.
 Qed.
-Lemma tail_cur_self q : forall cands cur t, ref_lookup_hdr q cands = None -> tail_cur q cands cur = Some t ->
-  (cands = [] /\ cur = Some t) \/ (is_redirect t = true /\ is_self (build_redirect_url t q) q = true /\ last cands None = Some t).
+Lemma ref_lookup_hdr_not_self q : forall cands t, ref_lookup_hdr q cands = Some t -> is_redirect t = true ->
+  is_self (build_redirect_url t q) q = false.
 Proof.
-  induction cands as [|c cands IH]; intros cur t Hn Ht; [left; auto|].
-  right. cbn [tail_cur] in Ht. cbn [ref_lookup_hdr] in Hn.
-  destruct c as [t0|].
-  - destruct (t_code t0 =? 0)%Z eqn:E0; [discriminate|].
-    destruct (is_self (build_redirect_url t0 q) q) eqn:Es; [|discriminate].
-    destruct (IH _ _ Hn Ht) as [[-> Hc]|(H1 & H2 & H3)].
-    + inversion Hc; subst. unfold is_redirect. rewrite E0. auto.
-    + repeat split; auto. destruct cands; [discriminate H3|exact H3].
-  - destruct (IH _ _ Hn Ht) as [[-> Hc]|(H1 & H2 & H3)]; [discriminate|].
-    repeat split; auto. destruct cands; [discriminate H3|exact H3].
+  induction cands as [|c cands IH]; intros t ER Hr; [discriminate|].
+  destruct c as [t0|]; cbn [ref_lookup_hdr] in ER; auto.
+  destruct (t_code t0 =? 0)%Z eqn:E0.
+  - inversion ER; subst. unfold is_redirect in Hr. rewrite E0 in Hr. discriminate.
+  - destruct (is_self (build_redirect_url t0 q) q) eqn:Es; auto. inversion ER; subst. exact Es.
 Qed.
 
 Lemma is_self_points_back u q : q_xfp q <> [] -> is_self u q = points_back u q.
@@ -761,40 +748,23 @@ Proof.
 Qed.
 
 (* with the scheme announced by X-Forwarded-Proto: Lookup answers with the first host whose
-   route does not point back at the request, whenever it does not return a self-redirect *)
-Lemma self_redirect_skipped q cands : q_xfp q <> [] -> region_last_skipped q cands = false ->
-  fst (lookup q cands) = ref_lookup q cands.
-Proof.
-  intros Hx Hreg. unfold lookup in *. rewrite <- (ref_lookup_hdr_eq q cands Hx).
-  unfold region_last_skipped, lookup in Hreg. rewrite (lookup_loop_ref q cands None) in *.
-  destruct (ref_lookup_hdr q cands) as [t|] eqn:ER; [reflexivity|].
-  destruct (tail_cur q cands None) as [t|] eqn:ET; [|reflexivity].
-  destruct (tail_cur_self q cands None t ER ET) as [[_ Hc]|(H1 & H2 & _)]; [discriminate|].
-  unfold is_redirect in H1. rewrite H1, H2 in Hreg. discriminate.
-Qed.
-(* ... and a self-redirect is returned only as the very last candidate *)
-Lemma self_redirect_only_last q cands t :
-  fst (lookup q cands) = Some t -> is_redirect t = true -> is_self (build_redirect_url t q) q = true ->
-  last cands None = Some t.
-Proof.
-  intros H Hr Hs. unfold lookup in H. rewrite lookup_loop_ref in H.
-  destruct (ref_lookup_hdr q cands) as [t'|] eqn:ER.
-  - inversion H; subst t'. exfalso. clear H. induction cands as [|c cands IH]; [discriminate|].
-    destruct c as [t0|]; cbn [ref_lookup_hdr] in ER; auto.
-    destruct (t_code t0 =? 0)%Z eqn:E0.
-    + inversion ER; subst. unfold is_redirect in Hr. rewrite E0 in Hr. discriminate.
-    + destruct (is_self (build_redirect_url t0 q) q) eqn:Es; auto. inversion ER; subst. congruence.
-  - destruct (tail_cur_self q cands None t ER H) as [[_ Hc]|(_ & _ & H3)]; [discriminate|exact H3].
-Qed.
+   route does not point back at the request, and with none when there is no such host *)
+Lemma self_redirect_skipped q cands : q_xfp q <> [] -> fst (lookup q cands) = ref_lookup q cands.
+Proof. intros Hx. unfold lookup. rewrite lookup_loop_ref. now apply ref_lookup_hdr_eq. Qed.
+(* ... and, header or not, Lookup never returns a redirect that fails its own self test *)
+Lemma self_redirect_never_returned q cands t :
+  fst (lookup q cands) = Some t -> is_redirect t = true -> is_self (build_redirect_url t q) q = false.
+Proof. unfold lookup. rewrite lookup_loop_ref. apply ref_lookup_hdr_not_self. Qed.
 
 Definition t_back : target := mkTarget 0 (bs "http") (bs "foo.com") (47 :: v_path) [] [] [] 301%Z.  (* http://foo.com/$path *)
 Definition t_upstream : target := mkTarget 1 (bs "http") (bs "10.0.0.2:80") [47] [] [] [] 0%Z.
 Definition q_x (xfp : str) : request := mkReq (bs "foo.com") (bs "/x") [] [] xfp false.
 
+(* before fix 4431a54 (route/table.go: target = nil before the continue) *)
 Lemma self_redirect_last_host_refuted :
-  exists q cands t, q_xfp q <> [] /\ fst (lookup q cands) = Some t /\ ref_lookup q cands = None
-    /\ fst (handle q cands []) = RRedirect 301%Z (bs "http://foo.com/x")
-    /\ points_back (build_redirect_url t q) q = true.
+  exists q cands t, q_xfp q <> [] /\ fst (lookup_unrepaired q cands) = Some t /\ ref_lookup q cands = None
+    /\ points_back (build_redirect_url t q) q = true
+    /\ fst (lookup q cands) = None.
 Proof. exists (q_x (bs "http")), [Some t_back], t_back. split; [discriminate|]. vm_compute. repeat split; reflexivity. Qed.
 
 Lemma self_redirect_without_xfp_refuted :
@@ -803,9 +773,10 @@ Lemma self_redirect_without_xfp_refuted :
     /\ fst (handle (q_x (bs "http")) cands []) = RProxy 1.
 Proof. exists (q_x []), [Some t_back; Some t_upstream]. vm_compute. repeat split; reflexivity. Qed.
 Example self_redirect_skipped_nonvacuous :
-  region_last_skipped (q_x (bs "http")) [Some t_back; Some t_upstream] = false
-  /\ fst (lookup (q_x (bs "http")) [Some t_back; Some t_upstream]) = Some t_upstream.
-Proof. vm_compute. split; reflexivity. Qed.
+  q_xfp (q_x (bs "http")) <> []
+  /\ fst (lookup (q_x (bs "http")) [Some t_back; Some t_upstream]) = Some t_upstream
+  /\ fst (lookup (q_x (bs "http")) [Some t_back]) = None.
+Proof. split; [discriminate|]. vm_compute. split; reflexivity. Qed.
 
 (* ------------------------------------------------------------------ *)
 (** * simultaneous requests *)
